@@ -159,6 +159,17 @@ CHECKS["C17"] = dict(
     design="§3 C17",
 )
 
+CHECKS["C16"] = dict(
+    category="translation_validation",
+    text="18 schema feature components (every named type kind, interface chains, custom roots, defaults of every literal kind incl. nested objects/enums/null/large floats/quotes/block strings, multi-line descriptions, "
+         "deprecations, repeatable directives with every location, specifiedBy, schema description, 14 wrapper shapes, keyword names) taken singly, in all pairs and all together x target formats .py/.graphql/.gql x variable names "
+         "{default, custom, soft keywords} x source {SDL, introspection served in-process by graphql-core}; the generated module is compiled and executed, the resulting schema compared with the source by print_schema and by "
+         "an independent structural comparer (types, field/argument order, defaults with ==, descriptions, deprecations, interfaces, members, enum values, directives, roots).",
+    note="Trusted: graphql-core build_schema/print_schema/introspection execution as the reference; the structural comparer (~100 lines) guards against print_schema normalising a difference away.",
+    technique="translation validation of every generated schema module/file against its source over an enumerated feature-combination space",
+    design="§3 C16",
+)
+
 PENDING_REASON = "check not built yet in this round (work in progress, see DESIGN.md §6)"
 NOT_APPLICABLE = {}
 
